@@ -451,5 +451,29 @@ class Prop(object):
             r.outcomes['no-identity:self-certification-ok'] += 1
         except Exception as e:
             r.viol('precondition', {'kind': 'first-self-certification'}, case, 'a key without identity cannot make its first self-certification: %r' % (e,))
+        # a locked key whose components are in different lock states (a subkey added inside the unlock scope stays unprotected; after export / import the
+        # primary is locked, the subkey is not): the key object is locked, so private operations on it refuse - also when they would be delegated
+        from pgpy.constants import KeyFlags, SymmetricKeyAlgorithm, HashAlgorithm
+        for form in ('live', 're-imported'):
+            for enforce in (True, False):
+                r.states += 1
+                r.transitions += 1
+                mixed, _mraw = K.pgpy_cert('ed25519a', uid='Mixed <mixed@example.org>', usage={KeyFlags.Certify})
+                mixed.protect(PW, SymmetricKeyAlgorithm.AES128, HashAlgorithm.SHA256)
+                with mixed.unlock(PW):
+                    mixed.add_subkey(K.pgpy_secret(K.raw('ed25519c', K.T0)), usage={KeyFlags.Sign}, created=K.dt(K.T0 + 9))
+                    mixed.add_subkey(K.pgpy_secret(K.raw('cv25519a', K.T0)), usage={KeyFlags.EncryptCommunications}, created=K.dt(K.T0 + 9))
+                obj = mixed if form == 'live' else pgpy.PGPKey.from_blob(bytes(mixed))[0]
+                A.set_enforcement(obj, enforce)
+                enc = obj.pubkey.encrypt(pgpy.PGPMessage.new(b'to the unprotected subkey', compression=CompressionAlgorithm.Uncompressed, format='b'))
+                for name, fn in (('sign', lambda: obj.sign(b'x')), ('decrypt', lambda: obj.decrypt(enc))):
+                    try:
+                        fn()
+                        r.outcomes['mixed-lock:done'] += 1
+                        if not obj.is_unlocked:
+                            r.viol('precondition', {'kind': 'precondition', 'op': name, 'form': 'locked-primary-unprotected-subkey', 'enforce': enforce}, case,
+                                   '%s on a locked key (%s, is_unlocked=False) whose subkey is unprotected did not refuse' % (name, form))
+                    except Exception:
+                        r.outcomes['mixed-lock:refused'] += 1
         r.samples.append({'preconditions': 'forms x enforcement'})
         return r
